@@ -44,13 +44,19 @@ impl Scenario for CompatSc {
             // rarely, a payload beyond one MiB (chunked key-stream generation has boundaries of its own)
             p.set("len", *x.pick(&[1_048_573i64, 1_048_574, 1_100_000, 2_200_000]));
         }
+        if class == "ref-interop-big" {
+            // every large framed-size boundary, 64 KiB .. 32 MiB (the reference seals, the library opens, and back)
+            let l = crate::sc_crypt::big_lens();
+            p.set("len", l[(index % l.len() as u64) as usize] as i64);
+            p.set("g", ((index / l.len() as u64 + index) % 2) as i64);
+        }
         p.steps.push(Step::new(class, &[index as i64]));
         p
     }
     fn run(&self, plan: &Plan, env: &Env, rec: &mut Rec) {
         match plan.class.as_str() {
             "golden" => run_golden(plan, env, rec),
-            "ref-interop" => run_ref_interop(plan, env.cur, rec),
+            "ref-interop" | "ref-interop-big" => run_ref_interop(plan, env.cur, rec),
             _ => {}
         }
     }
